@@ -236,6 +236,17 @@ static std::vector<std::string> classify_one(const Flat& t, int k, bool use_mid,
     for (auto& v : N.poly) if (locate(B.poly, B.bb, v.x, v.y, 1) == LOC_ON) touch = true;
     tags.push_back(touch ? "touches_true_container" : "clear_of_true_container");
     if (edges_overlap(N.poly, B.poly)) tags.push_back("edge_overlap_true_container");
+    // the blind spot of the library's containment test (Path1InsidePath2): the vertices of N that are strictly inside and
+    // strictly outside its true container B balance to within one (the others lie ON B's path, e.g. at edge crossings of
+    // the input), so the decision falls to one sample - the integer centre of N's bounding box - and that point lies
+    // strictly outside B (non-convex B) although N is inside
+    long long vin = 0, vout = 0;
+    for (auto& v : N.poly) { int l = locate(B.poly, B.bb, v.x, v.y, 1); if (l == LOC_IN) ++vin; else if (l == LOC_OUT) ++vout; }
+    if (vin - vout <= 1 && vout - vin <= 1) {
+      const int64_t mx = N.bb.x0 / 2 + N.bb.x1 / 2 + ((N.bb.x0 % 2 + N.bb.x1 % 2) / 2), my = N.bb.y0 / 2 + N.bb.y1 / 2 + ((N.bb.y0 % 2 + N.bb.y1 % 2) / 2);
+      const int lm = locate(B.poly, B.bb, mx, my, 1);
+      tags.push_back(lm == LOC_OUT ? "vertex_vote_equivocal_and_bbox_centre_outside_true_container" : (lm == LOC_ON ? "vertex_vote_equivocal_and_bbox_centre_on_true_container" : "vertex_vote_equivocal_and_bbox_centre_inside_true_container"));
+    }
   }
   return tags;
 }
